@@ -164,6 +164,7 @@ type RandomOpts struct {
 	AllowArchive  bool
 	AllowPause    bool
 	AllowOrphan   bool
+	Legacy        bool // objects may carry a legacy (operation Update) managedFields entry of the operator's field manager
 	Conflicts     int  // budget of 409 Conflict answers to patch / update requests (also dry-run ones)
 	Lag           bool // created PKO objects stay invisible to cached reads until an EnvSyncCache action
 	TemplateEdits int  // budget of ObjectDeployment template edits / pause toggles
@@ -400,6 +401,12 @@ func (wk *walker) envAction() {
 				}
 				wk.goneSlices[k] = u
 			}
+		}
+		return
+	}
+	if wk.opts.Legacy && rng.Intn(6) == 0 {
+		if k, ok := pick(existing); ok {
+			w.EnvLegacyManager(k)
 		}
 		return
 	}
